@@ -230,6 +230,7 @@ type Engine struct {
 	absHits         int
 	noSlice         bool
 	useModel        bool
+	harnessPkg      *ssa.Package
 	assertsToSolver bool
 	absAsserts      int
 	varMemo         map[*Term]varset
